@@ -390,6 +390,70 @@ Definition run_text (c : obs) : obs :=
   | _ => TokM.run c
   end.
 
+(* ---------- dns/rdtypes/util.py Bitmap (NSEC / NSEC3 / CSYNC type bitmaps) ---------- *)
+Definition bwindow := (Z * list Z)%type.
+
+(* Bitmap.to_text: the types whose bits are set, in the order they are printed;
+   byte & (0x80 >> j)  is bit 7-j of the octet *)
+Definition bit_set (byte j : Z) : bool := Z.testbit byte (7 - j).
+
+Definition byte_types (base byte : Z) : list Z :=
+  flat_map (fun j => if bit_set byte j then [base + j] else []) [0; 1; 2; 3; 4; 5; 6; 7].
+
+Fixpoint window_types (window i : Z) (bitmap : list Z) : list Z :=
+  match bitmap with
+  | [] => []
+  | b :: r => byte_types (window * 256 + i * 8) b ++ window_types window (i + 1) r
+  end.
+
+Definition bitmap_types (ws : list bwindow) : list Z :=
+  flat_map (fun w => window_types (fst w) 0 (snd w)) ws.
+
+(* sorted(rdtypes) *)
+Fixpoint insert_sorted (x : Z) (l : list Z) : list Z :=
+  match l with
+  | [] => [x]
+  | y :: r => if x <=? y then x :: l else y :: insert_sorted x r
+  end.
+Definition sort_z (l : list Z) : list Z := fold_right insert_sorted [] l.
+
+Fixpoint set_nth (i : nat) (f : Z -> Z) (l : list Z) : list Z :=
+  match l, i with
+  | [], _ => []
+  | x :: r, O => f x :: r
+  | x :: r, S k => x :: set_nth k f r
+  end.
+
+(* the loop of Bitmap.from_rdtypes; state: window, octets, prior_rdtype, bitmap (32 octets), windows *)
+Fixpoint frt_loop (ts : list Z) (window octets prior : Z) (bitmap : list Z) (acc : list bwindow)
+  : Z * Z * list Z * list bwindow :=
+  match ts with
+  | [] => (window, octets, bitmap, acc)
+  | t :: r =>
+      if t =? prior then frt_loop r window octets prior bitmap acc
+      else
+        let nw := t / 256 in
+        let acc1 := if negb (nw =? window) && negb (octets =? 0)
+                    then acc ++ [(window, firstn (Z.to_nat octets) bitmap)] else acc in
+        let bitmap1 := if negb (nw =? window) then repeat 0 32 else bitmap in
+        let offset := t mod 256 in
+        let byte := offset / 8 in
+        let bit := offset mod 8 in
+        frt_loop r nw (byte + 1) t
+                 (set_nth (Z.to_nat byte) (fun x => Z.lor x (Z.shiftr 128 bit)) bitmap1) acc1
+  end.
+
+Definition from_rdtypes (ts : list Z) : list bwindow :=
+  let '(window, octets, bitmap, acc) := frt_loop (sort_z ts) 0 0 0 (repeat 0 32) [] in
+  if negb (octets =? 0) then acc ++ [(window, firstn (Z.to_nat octets) bitmap)] else acc.
+
+Fixpoint windows_of_obs (l : list obs) : option (list bwindow) :=
+  match l with
+  | [] => Some []
+  | L [I w; B b] :: r => match windows_of_obs r with Some t => Some ((w, b) :: t) | None => None end
+  | _ => None
+  end.
+
 Definition run_addr (c : obs) : obs :=
   match c with
   | L [I 50; B a] => TokM.obs_of_res B (ipv4_ntoa a)
@@ -398,6 +462,16 @@ Definition run_addr (c : obs) : obs :=
   | L [I 52; B a] => TokM.obs_of_res B (ipv6_ntoa a)
   | L [I 53; t] =>
       match text_of_obs t with Some s => TokM.obs_of_res B (ipv6_aton s) | None => E eBadCase end
+  | L [I 54; L ws] =>
+      match windows_of_obs ws with
+      | Some w => L (map I (bitmap_types w))
+      | None => E eBadCase
+      end
+  | L [I 55; L ts] =>
+      match ints_of_obs ts with
+      | Some t => L (map (fun w => L [I (fst w); B (snd w)]) (from_rdtypes t))
+      | None => E eBadCase
+      end
   | _ => E eBadCase
   end.
 
